@@ -60,10 +60,10 @@ type ev struct {
 }
 
 type c13Case struct {
-	Comp  string  `json:"comp"`
-	Pkts  []spec  `json:"pkts"`
-	Evs   []ev    `json:"evs,omitempty"`
-	Opt   [2]int  `json:"opt"`
+	Comp  string    `json:"comp"`
+	Pkts  []spec    `json:"pkts"`
+	Evs   []ev      `json:"evs,omitempty"`
+	Opt   [2]int    `json:"opt"`
 	Ops   []string  `json:"-"`
 	OutA  [][]int64 `json:"-"`
 	OutB  [][]int64 `json:"-"`
@@ -458,7 +458,7 @@ func genCase(r *rand.Rand, comp string) (c13Case, []string) {
 	case "FlexFec":
 		c.Opt = [2]int{2 + r.Intn(5), 1 + r.Intn(3)}
 		c.Pkts = genPkts(r, c.Opt[0]*(1+r.Intn(3))+r.Intn(2), false, true)
-	case "DumpSender", "DumpReceiver":
+	case "DumpSender", "DumpReceiver", "DumpReceiverRtcp":
 		c.Pkts = genPkts(r, 1+r.Intn(6), false, false)
 	case "NackRtx":
 		n := 2 + r.Intn(8)
@@ -476,7 +476,7 @@ func genCase(r *rand.Rand, comp string) (c13Case, []string) {
 		}
 		sortEvs(c.Evs)
 	case "JBInterceptor":
-		c.Pkts = genPkts(r, 51+r.Intn(8), false, true)
+		c.Pkts = genPkts(r, 51+r.Intn(8), true, true)
 	case "JBPush":
 		c.Pkts = genPkts(r, 2+r.Intn(9), true, true)
 	case "TwccSender":
@@ -513,7 +513,7 @@ func sortEvs(e []ev) {
 	}
 }
 
-var quickComps = []string{"NackCopy", "NackRtx", "NackNoCopy", "FlexFec", "LeakyBucket", "Pacing", "DumpSender", "DumpReceiver",
+var quickComps = []string{"NackCopy", "NackRtx", "NackNoCopy", "FlexFec", "LeakyBucket", "Pacing", "DumpSender", "DumpReceiver", "DumpReceiverRtcp",
 	"StatsOut", "StatsIn", "JBInterceptor", "JBPush", "TwccSender", "Rtpfb"}
 
 // share of cases per component (out of 8): the long jitter-buffer histories are fewer
@@ -544,6 +544,9 @@ func main() {
 		set.Cases = append(set.Cases, runCase(c, &fails).toCase("corpus"))
 	}
 	per := o.Scale(90, 2500)
+	if o.N > 0 { // -n is a total case count (search campaigns)
+		per = 1 + o.N/len(quickComps)
+	}
 	type job struct {
 		c c13Case
 		b []string
